@@ -28,6 +28,20 @@ using clk = std::chrono::steady_clock;
 // type-erased BasicLockable over the mutex kinds
 struct any_mutex
 {
+    // a user lock whose unlock() returns slowly (legal: the waits are templated on the lock type).  Set
+    // by the owner right before a condition-variable wait, consumed by the unlock inside that wait: any
+    // gap between "user lock released" and "registered as waiter" is stretched to microseconds
+    int linger_us = 0;
+    void linger()
+    {
+        int l = linger_us;
+        linger_us = 0;
+        if (l > 0)
+        {
+            auto t = clk::now() + std::chrono::microseconds(l);
+            while (clk::now() < t) {}
+        }
+    }
     virtual ~any_mutex() = default;
     virtual void lock() = 0;
     virtual bool try_lock() = 0;
@@ -40,7 +54,17 @@ struct mutex_of : any_mutex
     M m;
     void lock() override { m.lock(); }
     bool try_lock() override { return m.try_lock(); }
-    void unlock() override { m.unlock(); }
+    void unlock() override
+    {
+        int l = linger_us;
+        linger_us = 0;
+        m.unlock();
+        if (l > 0)
+        {
+            auto t = clk::now() + std::chrono::microseconds(l);
+            while (clk::now() < t) {}
+        }
+    }
 };
 struct timed_of : any_mutex
 {
@@ -48,7 +72,17 @@ struct timed_of : any_mutex
     void lock() override { m.lock(); }
     bool try_lock() override { return m.try_lock(); }
     bool try_lock_until(clk::time_point t) override { return m.try_lock_until(t); }
-    void unlock() override { m.unlock(); }
+    void unlock() override
+    {
+        int l = linger_us;
+        linger_us = 0;
+        m.unlock();
+        if (l > 0)
+        {
+            auto t = clk::now() + std::chrono::microseconds(l);
+            while (clk::now() < t) {}
+        }
+    }
 };
 
 enum okind
@@ -98,6 +132,7 @@ struct actor_ctx
     int id;
     bool on_pika;
     int held = 0;    // how many times this actor holds the mutex (harness-side bookkeeping)
+    int linger = 0;  // slow user-lock unlock inside this actor's waits (microseconds)
 };
 
 static long long to_us(clk::time_point tp)
@@ -192,6 +227,7 @@ static void do_op(world& w, actor_ctx& A, opdesc const& o)
     if (A.held != 1) return;
     std::unique_lock<any_mutex> lk(*w.mtx, std::adopt_lock);
     auto pred = [&w] { return w.flag; };
+    if (A.linger > 0) w.mtx->linger_us = A.linger;
     switch (o.k)
     {
     case o_loop_wait:
@@ -494,10 +530,14 @@ int main(int argc, char** argv)
         std::atomic<int> finished{0}, go{0};
         std::atomic<long long> progress{0};
         std::vector<std::thread> os_threads;
+        std::vector<int> lingers(nact, 0);
+        for (int a = 0; a < nact; ++a)
+            if (cvmode && R.chance(1, 3)) lingers[a] = 10 + (int) R.below(150);
         for (int a = 0; a < nact; ++a)
         {
             auto body = [&, a] {
                 actor_ctx A{a + 1, on_pika[a], 0};
+                A.linger = lingers[a];
                 while (!go.load())
                 {
                     if (A.on_pika) pika::this_thread::yield();
